@@ -81,6 +81,10 @@ checks = [
   "explicit-state BFS over AddLink histories of the real Network (successor = replay on a fresh instance, dedup by link set + node-id assignment) with a Floyd-Warshall oracle for all query pairs in every state; map-iteration orders of the instrumented package explored as environment choices",
   "All histories of up to 5 (7) AddLink calls over 10 candidate links between 5 nodes are explored; in every distinct state and for both minimisation options all 49 ordered query pairs are answered by the real ShortestRoute and compared with Floyd-Warshall (minimal cost, valid chain, totals, emptiness); for small states every query is repeated under every map-iteration order with at most one deviation.",
   "Dedup assumes the R-tree's answer to a unique-nearest query does not depend on insertion order (queries with tied nearest nodes are skipped); networks with more than 5 nodes or parallel links are outside.", "4/C19"),
+ ("C20", "exploration", "E1",
+  "exhaustive enumeration of abstract CRS records rendered independently as PROJ.4 and OGC WKT x lattice positions, and of all ordered pairs of a pool of one-field-apart references, on the real parsers and transformers",
+  "Every record of the lattice (five projections incl. both WKT parameter spellings, geographic, 4-6 spheroids, TOWGS84 none/3/7, three linear units) is rendered in both notations and the resulting transformers compared to 1 micrometre at every lattice position; registered names and aliases against their definitions; Equal <=> nil transformer and 'nil only for coinciding references' for all 34^2 ordered pairs; .prj through the shapefile decoder.",
+  "WKT is rendered with neutral DATUM/GEOGCS names (a recognised datum name makes the table values override the TOWGS84 clause by design); lattice points only.", "4/C20"),
 ]
 not_applicable = [
 ]
